@@ -37,7 +37,7 @@ ASSUMPTIONS = [
     "the key is the name, not the arguments (documented): different arguments under one key replay the first output",
 ]
 BOUNDS = {
-    "quick": {"programs": "all single and pair placements x key forms x flags", "history": "depth 8 (fixpoint where smaller)", "backends": "recording dict, beaker memory"},
+    "quick": {"programs": "all single and pair placements x key forms x flags; 5 programs whose <%page> tag carries a cache_key of its own (literal / expression, page cached or not)", "history": "depth 8 (fixpoint where smaller)", "backends": "recording dict, beaker memory"},
     "thorough": {"programs": "all 31 placements x key forms x flags x cache_* placements", "history": "fixpoint", "backends": "recording dict (pass_context on/off), beaker memory, beaker file, dogpile memory"},
 }
 READY = True
@@ -83,6 +83,10 @@ def build_text(prog):
         page_attrs.append('cached="True"')
     if mask & 2:
         page_attrs.append('cache_timeout="60" cache_foo="pg" cache_bar="pg"')
+    if prog.get("pagekey") == "literal":
+        page_attrs.append('cache_key="PK"')  # the key of the PAGE's own entry; sections keep theirs
+    elif prog.get("pagekey") == "ctx":
+        page_attrs.append('cache_key="${k}"')
     lines.append("<%! \ndef tagf(s):\n    return 'f[' + s + ']'\n%>")
     if page_attrs:
         lines.append("<%page " + " ".join(page_attrs) + "/>")
@@ -167,7 +171,7 @@ class Model:
 
     def key_of(self, sec, ctx, a=None):
         if sec == "page":
-            return "render_body"
+            return {None: "render_body", "literal": "PK", "ctx": ctx["k"]}[self.prog.get("pagekey")]
         if sec == "d":
             kf = self.prog["key"]
             return {"default": "render_d", "literal": "K1", "ctx": ctx["k"], "arg": a, "mixed": "%s %s" % (ctx["k"], a)}[kf]
@@ -245,10 +249,10 @@ class Model:
             parts.append(anon())
             return self.lead + self.tag + "%s|%s|%s|o[f[%s]]|%s|%s\n%s" % (v, parts[0], parts[1], parts[2], parts[3], extra, parts[4])
 
-        return self.cached_run("page", "render_body", tag, body)
+        return self.cached_run("page", self.key_of("page", ctx), tag, body)
 
     def has_page_tag(self):
-        return "page" in self.c or (self.prog["args"] != "none" and self.prog["args"] & 2)
+        return "page" in self.c or bool(self.prog.get("pagekey")) or (self.prog["args"] != "none" and self.prog["args"] & 2)
 
 
 # --------------------------------------------------------------------------
@@ -549,6 +553,8 @@ def events(cfg):
                 ev.append(("fault", ti, "c1", sec, "key"))
         if "page" in c:
             ev.append(("invalidate_body", ti))
+            if prog.get("pagekey"):
+                ev.append(("invalidate", ti, "PK" if prog["pagekey"] == "literal" else "ka"))
         if "d" in c:
             ev.append(("invalidate_def", ti, "d"))
             if prog["key"] == "literal":
@@ -586,7 +592,7 @@ def events(cfg):
     return ev
 
 
-KEY_UNIVERSE = ["render_body", "render_d", "K1", "ka", "kb", "x", "y", "n", "render_b", "render_render_k", 5, "5", 0, "", "ka x", "ka y", "kb x", "kb y", "kax", "kay"]
+KEY_UNIVERSE = ["render_body", "PK", "render_d", "K1", "ka", "kb", "x", "y", "n", "render_b", "render_render_k", 5, "5", 0, "", "ka x", "ka y", "kb x", "kb y", "kax", "kay"]
 
 
 def real_state(w):
@@ -681,6 +687,10 @@ def configs(tier):
     # a cache_key made of two expressions and a blank between them
     for be in backends[:2]:
         cfgs.append({"prog": {"cached": ["d"], "key": "mixed", "flags": "", "args": "none"}, "backend": be, "max_depth": 30 if tier != "quick" else 6, "nofault": True})
+    # the <%page> tag carries a cache_key of its own (page cached or not): sections without one keep their default keys
+    for sub, pk in ((["d", "b"], "literal"), (["n", "anon"], "literal"), (["page", "d"], "literal"), (["d"], "ctx"), (["page", "b"], "ctx")):
+        for be in backends[:2] if tier != "quick" else backends[:1]:
+            cfgs.append({"prog": {"cached": sub, "key": "default", "flags": "", "args": "none", "pagekey": pk}, "backend": be, "max_depth": 30 if tier != "quick" else 6, "nofault": True})
     # cache keys that are false in a boolean test (0, '')
     for be in backends[:2] if tier == "quick" else backends[:3]:
         cfgs.append({"prog": {"cached": ["d"], "key": "ctx", "flags": "", "args": "none", "ctxs": ["c7", "c8", "c9"]}, "backend": be, "max_depth": 30 if tier != "quick" else 6, "nofault": True})
@@ -695,7 +705,7 @@ def configs(tier):
 def label(c):
     p = c["prog"]
     return "cached=%s%s key=%s flags=%s args=%s backend=%s%s%s" % (
-        "+".join(p["cached"]), "+kwonly" if p.get("extra") else "", p["key"], p["flags"] or "-", p["args"], c["backend"], " ctx" if c.get("pass_context") else "", (" uris=%s" % c["uris"] if c.get("uris") else "") + (" strict" if c.get("strict") else "") + (" ctxs=%s" % "+".join(p["ctxs"]) if p.get("ctxs") else ""))
+        "+".join(p["cached"]), "+kwonly" if p.get("extra") else "", p["key"], p["flags"] or "-", p["args"], c["backend"], " ctx" if c.get("pass_context") else "", (" uris=%s" % c["uris"] if c.get("uris") else "") + (" strict" if c.get("strict") else "") + (" ctxs=%s" % "+".join(p["ctxs"]) if p.get("ctxs") else "") + (" pagekey=%s" % p["pagekey"] if p.get("pagekey") else ""))
 
 
 def plan(tier, seed):
